@@ -148,7 +148,19 @@ def grammar_script(rng):
         L.append("  init %s with %s" % (rng.choice([".x", "x.y", ".x.", "x..y", "x"]), rng.choice(["1", "to", "a 1 b", "value 1 b 2", '"s"', "1j"])))
     nfr = rng.randint(1, 3)
     fnames = ["m%d" % i for i in range(nfr)]
-    for fn in fnames + ([rng.choice(fnames)] if rng.random() < 0.1 else []):
+    if rng.random() < 0.25:
+        # taskers that are not framers, declared first, share the tasker namespace: their names turn up where a framer is
+        # expected (aux lg, bid start sv, go .. if lg is done, ready lg)
+        if rng.random() < 0.6:
+            L.append("  logger lg to /tmp/vf-nowhere")
+            L.append("    log l0 on update")
+            L.append("      loggee .x")
+            fnames.append("lg")
+        else:
+            L.append("  server sv at 0.5 rx 127.0.0.1:0")
+            fnames.append("sv")
+        nfr += 1
+    for fn in [f for f in fnames if f not in ("lg", "sv")] + ([rng.choice(fnames)] if rng.random() < 0.1 else []):
         line = "  framer %s be %s" % (fn, rng.choice(["active", "inactive", "aux", "slave", "moot", "bogus"]))
         if rng.random() < 0.3:
             line += " at %s" % rng.choice(["0.5", "1j", "-1", "x", "0x10"])
